@@ -15,10 +15,10 @@ Proof. exact convert_closed. Qed.
 Theorem C02_convert_rejects : forall b, links_closed b = false -> convert b <> COk.
 Proof. exact convert_rejects. Qed.
 
-(* where today's code crashes instead of returning an error *)
-Theorem C02_window_wall_missing_crashes : forall b,
-  parse_ok b = true -> cons_step b = true -> walls_step b = true -> windows_panic b = true -> convert b = CPanic.
-Proof. exact window_wall_missing_crashes. Qed.
+(* a window whose wall is missing is rejected with an error (it crashed the converter before 0894e0a) *)
+Theorem C02_window_wall_missing_rejected : forall b,
+  parse_ok b = true -> cons_step b = true -> walls_step b = true -> windows_wall_missing b = true -> convert b = CErr.
+Proof. exact window_wall_missing_rejected. Qed.
 
 (* the one link kind that is not rejected: a space naming undefined space / system conditions is
    converted with `loads: None` (known finding F13; the full statement "every broken name reference
